@@ -14,6 +14,8 @@ B(s) == CASE s = "Name" -> <<78, 97, 109, 101>> [] s = "X" -> <<88>> [] s = "x" 
           [] s = "W" -> <<87>> [] s = "w" -> <<119>> [] s = "k" -> <<107>> [] s = "srv" -> <<115, 114, 118>> [] s = "Srv" -> <<83, 114, 118>>
           [] s = "f_oo_bar" -> <<102, 95, 111, 111, 95, 98, 97, 114>> [] s = "P" -> <<80>> [] s = "p" -> <<112>>
           [] s = "T" -> <<84>> [] s = "Emb" -> <<69, 109, 98>>
+          [] s = "Port" -> <<80, 111, 114, 116>> [] s = "Listen" -> <<76, 105, 115, 116, 101, 110>> [] s = "listen" -> <<108, 105, 115, 116, 101, 110>>
+          [] s = "port" -> <<112, 111, 114, 116>> [] s = "conf" -> <<99, 111, 110, 102>> [] s = "Conf" -> <<67, 111, 110, 102>>
 SubA == [tname |-> <<>>, fields |-> << Field(B("X"), <<>>, "int", NoT) >>]
 SubB == [tname |-> <<>>, fields |-> << Field(B("Name"), <<>>, "string", NoT), Field(B("X"), <<>>, "int", NoT) >>]
 \* the field pool: supported kinds, colliding names, tags (two fields sharing one tag), unexported, interface, nested structs
@@ -25,7 +27,8 @@ Pool == << Field(B("Name"), <<>>, "string", NoT), Field(B("Name"), <<>>, "int", 
            Field(B("Inner"), <<>>, "struct", SubA), Field(B("Inner"), <<>>, "struct", SubB), Field(B("Inner"), <<>>, "int", NoT),
            Field(B("X"), <<>>, "float", NoT), Field(B("X"), <<>>, "bool", NoT),
            Field(B("P"), <<>>, "ptrint", NoT), Field(B("P"), <<>>, "sliceint", NoT), Field(B("P"), <<>>, "mapsi", NoT),
-           Field(B("P"), <<>>, "arrint", NoT), Field(B("Inner"), <<>>, "ptrstruct", NoT), Field(B("Emb"), <<>>, "embedded", NoT) >>
+           Field(B("P"), <<>>, "arrint", NoT), Field(B("Inner"), <<>>, "ptrstruct", NoT), Field(B("Emb"), <<>>, "embedded", NoT),
+           Field(B("Port"), B("listen"), "int", NoT), Field(B("Listen"), <<>>, "int", NoT), Field(B("Port"), <<>>, "int", NoT) >>
 Idx == 1..Len(Pool)
 Distinct(is) == \A i, j \in 1..Len(is) : i < j => (is[i] < is[j] /\ Pool[is[i]].go # Pool[is[j]].go)
 TOf(is, tn) == [tname |-> tn, fields |-> [i \in 1..Len(is) |-> Pool[is[i]]]]
@@ -45,7 +48,7 @@ AddField == /\ Scope = "fields" /\ phase = 0 /\ Len(d) < MaxFields
             /\ \E i \in Idx : Distinct(Append(d, i)) /\ d' = Append(d, i)
             /\ UNCHANGED <<tn, blk, phase, tk, bk, nblk>>
 PickName == /\ Scope = "fields" /\ phase = 0 /\ d # <<>>
-            /\ \E nm \in {<<>>, B("n")} : blk' = [type |-> B("t"), name |-> nm, ents |-> <<>>] /\ tn' = <<>>
+            /\ \E nm \in {<<>>, B("n"), <<113, 34, 92, 10, 9, 195, 169>>} : blk' = [type |-> B("t"), name |-> nm, ents |-> <<>>] /\ tn' = <<>>
             /\ phase' = 1 /\ UNCHANGED <<d, tk, bk, nblk>>
 AddEnt == /\ Scope = "fields" /\ phase \in {1, 2}
           /\ \E e \in EntsPool : DistinctKeys(Append(blk.ents, e)) /\ blk' = [blk EXCEPT !.ents = Append(@, e)]
@@ -54,9 +57,11 @@ AddEnt == /\ Scope = "fields" /\ phase \in {1, 2}
 TKinds == {"ptr-struct", "ptr-slice", "nil", "struct", "nilptr-struct", "ptr-int", "ptr-string", "ptr-map", "ptr-slice-int",
            "ptr-slice-ptr", "ptr-ptr-struct", "slice", "ptr-array", "ptr-iface", "ptr-func", "ptr-chan"}
 \* (descriptor, type name): anonymous struct types and the declared types of the harness catalogue
-TDescs == { <<<<1, 3>>, <<>>>>, <<<<3>>, <<>>>>, <<<<2, 3>>, <<>>>>, <<<<1, 3>>, B("T")>>, <<<<3>>, B("FooBar")>>, <<<<1, 4>>, B("Srv")>> }
-TBlocks == { [type |-> B(ty), name |-> nm, ents |-> es] : ty \in {"t", "foo_bar", "srv"}, nm \in {<<>>, B("n")},
-             es \in { <<>>, <<Ent(B("x"), IntV(1))>>, <<Ent(B("x"), StrV(B("s")))>>, <<Ent(B("y"), IntV(1))>> } }
+TDescs == { <<<<1, 3>>, <<>>>>, <<<<3>>, <<>>>>, <<<<2, 3>>, <<>>>>, <<<<1, 3>>, B("T")>>, <<<<3>>, B("FooBar")>>, <<<<1, 4>>, B("Srv")>>,
+            <<<<24, 25>>, B("Conf")>>, <<<<26, 25>>, B("Conf")>> }    \* two declared types of the same name, one with a tag
+TBlocks == { [type |-> B(ty), name |-> nm, ents |-> es] : ty \in {"t", "foo_bar", "srv", "conf"}, nm \in {<<>>, B("n")},
+             es \in { <<>>, <<Ent(B("x"), IntV(1))>>, <<Ent(B("x"), StrV(B("s")))>>, <<Ent(B("y"), IntV(1))>>, <<Ent(B("listen"), IntV(1))>>,
+                      <<Ent(B("port"), IntV(1)), Ent(B("listen"), IntV(7))>> } }
 PickTarget == /\ Scope = "targets" /\ phase = 0
               /\ \E k \in TKinds, b \in {"struct", "slice", "nil"}, dd \in TDescs : tk' = k /\ bk' = b /\ d' = dd[1] /\ tn' = dd[2]
               /\ phase' = 1 /\ UNCHANGED <<blk, nblk>>
